@@ -46,8 +46,8 @@ def dottedSuffix (s : Str) : R Str := if isDottedSuffix s then .ok s else .error
 
 def boolean (s : Str) : R Bool :=
   let w := lower s
-  if w == "yes".toList || w == "true".toList || w == "on".toList then .ok true
-  else if w == "no".toList || w == "false".toList || w == "off".toList then .ok false
+  if w == "on".toList || w == "true".toList || w == "yes".toList then .ok true
+  else if w == "false".toList || w == "no".toList || w == "off".toList then .ok false
   else .error .valueError
 
 def integer (s : Str) : R Int := match pyInt s with | some n => .ok n | none => .error .valueError
